@@ -899,10 +899,14 @@ Definition pipe_eqb (a b : pipe) : bool :=
   | PRegexp, PRegexp | PLineFormat, PLineFormat | PLabelFormat, PLabelFormat | PUnwrap, PUnwrap | PDrop, PDrop => true
   | _, _ => false
   end.
-Record plancase := { q_id : Z; q_absent : bool; q_pipes : list pipe; q_bp : Z; q_internal : list pipe }.
+(* q_internal = None when planning failed after the breakpoint was computed *)
+Record plancase := { q_id : Z; q_absent : bool; q_pipes : list pipe; q_bp : Z; q_internal : option (list pipe) }.
 Definition plan_mismatch (c : plancase) : bool :=
   negb ((get_breakpoint (q_absent c) (q_pipes c) =? q_bp c) &&
-        list_eqb pipe_eqb (internal_pipes (q_absent c) (q_pipes c)) (q_internal c)).
+        match q_internal c with
+        | None => true
+        | Some l => list_eqb pipe_eqb (internal_pipes (q_absent c) (q_pipes c)) l
+        end).
 Definition plan_mismatches (cs : list plancase) : list Z := map q_id (filter plan_mismatch cs).
 
 (* hash.go structure cases: CH64 of every k+v and of the descriptor bytes as a table *)
